@@ -13,6 +13,8 @@ pub fn subs(env: &super::common::Env) -> Vec<super::common::Sub> {
     let mut v = crate::protocol::context::ipa_verif_h3::subs(env);
     #[cfg(all(descriptive_gate, not(feature = "shuttle")))]
     v.push(real::sub());
+    #[cfg(all(descriptive_gate, not(feature = "shuttle")))]
+    v.push(real::join_sub());
     v
 }
 
@@ -308,6 +310,195 @@ mod real {
     pub fn sub() -> Sub {
         Sub::random("real_contexts", 200, 1500, 40_000, case,
             "the real callers of the batcher under TestWorld: DZKPUpgraded::validate_record (Boolean multiplications, 1/2/4/8 records per batch) and the MAC context's validate_record (Fp31, batch = active work), 1..20 records; under DZKP only a generated prefix of the records multiplies (1-2 steps each; prefix = all, none, a whole number of batches, random), so the remaining records reach validate_record without having pushed anything - at a batch boundary while nothing at all is outstanding, arrival {together, batch head first, reverse, random} per helper; oracle: when the wait for record i returns, every record of its batch has requested validation; honest runs validate; validating a record again afterwards or a record beyond the total is an error or a panic, never Ok; non-trivial = more than one batch or a record without multiplication")
+        .shrink_iters(40)
+    }
+
+    // --------------------------------------------------------------------------------------
+    // validated_seq_join: the API that hands each record to the protocol with its verdict
+    // (added after seeded change C16-3, which drops the verdict one layer above the batcher)
+    // --------------------------------------------------------------------------------------
+
+    #[derive(Clone, Debug)]
+    struct JoinPlan {
+        n: usize,
+        rpb: usize,
+        steps: usize,
+        /// (helper, record, step, left share?) - that helper uses a wrong share in that multiplication
+        cheat: Option<(usize, usize, usize, bool)>,
+        delay: [Vec<u8>; 3],
+        seed: u64,
+    }
+
+    async fn helper_join(ctx: MaliciousContext<'_>, h: usize, plan: &JoinPlan, a: Vec<Replicated<Boolean>>, b: Vec<Replicated<Boolean>>) -> Vec<Result<(), String>> {
+        use crate::secret_sharing::replicated::ReplicatedSecretSharing;
+        use crate::ff::Field;
+        let v = ctx.set_total_records(TotalRecords::specified(plan.n).unwrap()).dzkp_validator(TEST_DZKP_STEPS, plan.rpb);
+        let m = v.context();
+        let cheat = plan.cheat;
+        let steps = plan.steps;
+        let delays = plan.delay[h].clone();
+        v.validated_seq_join(futures::stream::iter(a.into_iter().zip(b)).enumerate().map(move |(i, (a, b))| {
+            let m = m.clone();
+            let d = delays[i];
+            async move {
+                for _ in 0..d {
+                    tokio::task::yield_now().await;
+                }
+                let rid = RecordId::from(i);
+                let mut acc = a;
+                for k in 0..steps {
+                    let x = match cheat {
+                        Some((ch, cr, ck, left)) if ch == h && cr == i && ck == k => {
+                            if left {
+                                Replicated::new(acc.left() + Boolean::ONE, acc.right())
+                            } else {
+                                Replicated::new(acc.left(), acc.right() + Boolean::ONE)
+                            }
+                        }
+                        _ => acc.clone(),
+                    };
+                    acc = x.multiply(&b, m.narrow(&format!("c16join{k}")), rid).await?;
+                }
+                Ok::<_, Error>(acc)
+            }
+        }))
+        .map(|r| r.map(|_| ()).map_err(|e| format!("{e:?}")))
+        .collect::<Vec<_>>()
+        .await
+    }
+
+    fn run_join(plan: &JoinPlan) -> (Vec<Option<Result<Vec<Result<(), String>>, String>>>, bool) {
+        block_on(async {
+            let mut wc = TestWorldConfig::default();
+            wc.seed = plan.seed;
+            wc.timeout = None;
+            let world = TestWorld::new_with(&wc);
+            let mut rng = <rand::rngs::StdRng as rand::SeedableRng>::seed_from_u64(plan.seed ^ 0x1603);
+            let mut out: Vec<Option<Result<Vec<Result<(), String>>, String>>> = vec![None, None, None];
+            let mut timed_out = false;
+            {
+                let ctxs = world.malicious_contexts();
+                let mut sa: [Vec<Replicated<Boolean>>; 3] = Default::default();
+                let mut sb: [Vec<Replicated<Boolean>>; 3] = Default::default();
+                for i in 0..plan.n {
+                    let xa: [Replicated<Boolean>; 3] = Boolean::from((plan.seed >> (i % 60)) & 1 == 1).share_with(&mut rng);
+                    let xb: [Replicated<Boolean>; 3] = Boolean::from(true).share_with(&mut rng);
+                    for h in 0..3 {
+                        sa[h].push(xa[h].clone());
+                        sb[h].push(xb[h].clone());
+                    }
+                }
+                let mut futs = futures::stream::FuturesUnordered::new();
+                for (h, ((ctx, a), b)) in ctxs.into_iter().zip(sa).zip(sb).enumerate() {
+                    futs.push(async move { (h, AssertUnwindSafe(helper_join(ctx, h, plan, a, b)).catch_unwind().await) }.boxed_local());
+                }
+                let deadline = tokio::time::Instant::now() + Duration::from_secs(6);
+                loop {
+                    match tokio::time::timeout_at(deadline, futs.next()).await {
+                        Ok(Some((h, Ok(r)))) => out[h] = Some(Ok(r)),
+                        Ok(Some((h, Err(p)))) => out[h] = Some(Err(format!("panic: {}", panic_message(&p)))),
+                        Ok(None) => break,
+                        Err(_) => {
+                            timed_out = true;
+                            break;
+                        }
+                    }
+                }
+                let _ = catch(AssertUnwindSafe(move || drop(futs)));
+            }
+            let _ = take_last_panic();
+            let _ = catch(AssertUnwindSafe(move || drop(world)));
+            (out, timed_out)
+        })
+    }
+
+    fn join_case(_env: &Env, src: &mut Src<'_>) -> CaseResult {
+        // records per batch become the active work, which the code requires to be a power of two
+        let rpb = src.pick(&[1usize, 2, 4, 8, 16]);
+        let n = src.urange(1, 3 * rpb + 2).min(20);
+        let steps = 1 + src.idx(2);
+        let cheat = if src.below(5) == 0 { None } else { Some((src.idx(3), src.idx(n), src.idx(steps), src.bool())) };
+        let shape = src.below(3);
+        let delay: [Vec<u8>; 3] = std::array::from_fn(|_| {
+            (0..n)
+                .map(|i| match shape {
+                    0 => 0,
+                    // within a batch the later records finish first
+                    1 => (2 * (rpb - i % rpb)) as u8,
+                    _ => src.below(8) as u8,
+                })
+                .collect()
+        });
+        let plan = JoinPlan { n, rpb, steps, cheat, delay, seed: src.seed() };
+        let cj = json!({"records": n, "records_per_batch": rpb, "multiplications_per_record": steps,
+            "wrong_share": plan.cheat.map(|(h, r, k, l)| json!({"helper": h, "record": r, "step": k, "share": if l { "left" } else { "right" }})),
+            "start_delays": plan.delay.iter().map(|d| d.clone()).collect::<Vec<_>>(), "seed": plan.seed.to_string()});
+        let mut labels = vec![format!("rpb:{rpb}"), format!("finish-order:{}", ["in-order", "batch-reversed", "random"][shape as usize]), format!("cheat:{}", if cheat.is_some() { "one-wrong-share" } else { "none" })];
+        if n % rpb != 0 {
+            labels.push("partial-last-batch".into());
+        }
+        let (out, timed_out) = run_join(&plan);
+        if timed_out {
+            return Ok(CaseOk::new(false, &0u8, serde_json::Value::Null).label("inconclusive:timeout").labels(labels));
+        }
+        let bad_batch = plan.cheat.map(|(_, r, _, _)| r / rpb);
+        let mut detected_by_honest = false;
+        for (h, o) in out.iter().enumerate() {
+            let Some(res) = o else {
+                return Ok(CaseOk::new(false, &0u8, serde_json::Value::Null).label("inconclusive:no-outcome").labels(labels));
+            };
+            let v = match res {
+                Err(e) if plan.cheat.is_none() => return Err(violation("honest-run-failed:join", format!("helper {h}: {e}").chars().take(400).collect::<String>(), cj)),
+                Err(_) => {
+                    labels.push("helper-panicked-under-attack".into());
+                    continue;
+                }
+                Ok(v) => v,
+            };
+            let verdicts: Vec<bool> = v.iter().map(Result::is_ok).collect();
+            if plan.cheat.is_none() || verdicts.len() == n {
+                if verdicts.len() != n {
+                    return Err(violation("join-lost-records", format!("helper {h}: validated_seq_join yielded {} items for {n} records of an honest run", verdicts.len()), cj));
+                }
+            }
+            for (bi, batch) in verdicts.chunks(rpb).enumerate() {
+                // the verdict belongs to the batch: whatever this helper concluded about the
+                // batch, every record of it is released with that verdict
+                if batch.iter().any(|x| *x) && batch.iter().any(|x| !*x) {
+                    return Err(violation(
+                        "batch-verdict-split",
+                        format!("helper {h}: the records of batch {bi} ({rpb} records per batch) left validated_seq_join with different verdicts {batch:?} (true = Ok) - a record was released with a verdict that is not its batch's; all verdicts of this helper: {verdicts:?}"),
+                        cj,
+                    ));
+                }
+                let honest_batch = bad_batch.is_none_or(|b| bi < b);
+                if honest_batch && batch.iter().any(|x| !*x) {
+                    let e = v[bi * rpb..].iter().find_map(|r| r.as_ref().err()).cloned().unwrap_or_default();
+                    return Err(violation("honest-batch-rejected:join", format!("helper {h}: batch {bi}, in which nobody deviated, was not released as Ok: {e}").chars().take(400).collect::<String>(), cj));
+                }
+                if Some(bi) == bad_batch && batch.iter().all(|x| !*x) && plan.cheat.is_some_and(|(ch, ..)| ch != h) {
+                    detected_by_honest = true;
+                }
+                if bad_batch.is_some_and(|b| bi > b) {
+                    labels.push(format!("batch-after-failed-one:{}", if batch.iter().all(|x| *x) { "ok" } else { "err" }));
+                }
+            }
+        }
+        if plan.cheat.is_some() {
+            labels.push(format!("wrong-share:{}", if detected_by_honest { "rejected-by-an-honest-helper" } else { "not-rejected" }));
+            if let Some(b) = bad_batch {
+                labels.push(format!("failed-batch-size:{}", ((b + 1) * rpb).min(n) - b * rpb));
+            }
+        }
+        labels.sort();
+        labels.dedup();
+        let d = digest(&(n, rpb, steps, plan.cheat, &plan.delay));
+        Ok(CaseOk { nontrivial: plan.cheat.is_some_and(|(_, r, ..)| ((r / rpb + 1) * rpb).min(n) - r / rpb * rpb >= 2) || n > rpb, digest: d, labels, sample: cj })
+    }
+
+    pub fn join_sub() -> Sub {
+        Sub::random("seq_join_verdicts", 200, 1200, 30_000, join_case,
+            "DZKPValidator::validated_seq_join (the API that releases each record to the protocol with its verdict) under TestWorld: 1..20 records of 1-2 Boolean multiplications, 1/2/4/8/16 records per batch (a power of two, as the active-work setting requires), finish order {in order, reversed within the batch, random} per helper, and in 4 of 5 cases one helper uses a wrong left/right share in one multiplication of one record; oracle: on every helper all records of a batch leave the stream with the same verdict (the batch's), batches before the deviation are released Ok, an honest run releases every record Ok; whether an honest helper rejects the deviating batch and what happens to later batches are labels; non-trivial = more than one batch, or the failing batch holds at least two records")
         .shrink_iters(40)
     }
 }
